@@ -46,6 +46,8 @@ func vfC01(w *vfWorld) {
 	cfg := vfDefaultCfg()
 	cfg.Store = vfPick(t, "c01.store", []string{"cookie", "redis"})
 	cs.Store = cfg.Store
+	// a sixth of the worlds run the same configuration migrated to the alpha (YAML) format by the product's own converter
+	cfg.Alpha = t.Prob("c01.alpha-config", 160)
 	E, R := 2*time.Hour, 20*time.Minute
 	cfg.CookieExpire, cfg.CookieRefresh = E, R
 	cfg.ProxyPrefix = vfPick(t, "c01.prefix", []string{"/oauth2", "/oauth2", "/auth2", "/_gate"})
